@@ -5,7 +5,10 @@
 //!  * the runtime handed to the factory wraps the simulator's: a requested delay of ZERO is
 //!    rounded up to 1 ns (timer resolution) because the simulated clock stands still while the
 //!    worker runs, so `delay(0)` in the worker loop would spin forever; every delay is logged
-//!    with the ORIGINALLY requested value (time of request, ns);
+//!    with the ORIGINALLY requested value (time of request, ns).  This is still needed with the
+//!    sleep clamped at zero (d4a5b38): an item exactly at its boundary (time_until = 0 while
+//!    the check uses a strict `>`) or an instance several periods behind makes the worker ask
+//!    for delay(0) again and again until the clock moves;
 //!  * with `cfg trace=1` every op result is followed by ` #t:ns,t:ns,... #n:last,... #n:last,...`:
 //!    the delays the code requested from the timer during this op (one per worker-loop
 //!    iteration), then per writer / per reader the number of deadline-missed listener calls
